@@ -301,7 +301,12 @@ def dead_peer_case(case):
     with srv:
         ths = [threading.Thread(target=dead, daemon=True)]
         ths[0].start()
-        time.sleep(0.4)                      # the dead request is under way
+        hole.settimeout(10)
+        try:
+            held, _ = hole.accept()          # the dead request is under way: its TCP connection has arrived
+        except OSError:
+            held = None
+        time.sleep(0.2)
         for i in range(case['healthy']):
             ths.append(threading.Thread(target=healthy, args=(i,), daemon=True))
             ths[-1].start()
